@@ -140,7 +140,9 @@ theorem tie_mark_object_ids_as_used (s : St) (ks : List Nat) :
     Gen.Scenario_mark_object_ids_as_used s ks = ofMark (markMany s ks) := by
   unfold Gen.Scenario_mark_object_ids_as_used markMany
   simp only [tryE_const, tryE_ret]
-  rw [check_loop s.idSet _ (by intro acc k; simp [tie_is_object_id_used])]
+  rw [check_loop s.idSet _ (by
+    intro acc k
+    by_cases h1 : k ∈ s.idSet <;> by_cases h2 : k ∈ acc <;> simp [tie_is_object_id_used, h1, h2])]
   rw [forE_eq_forEach]
   by_cases h : ks.Nodup ∧ ∀ k ∈ ks, k ∉ s.idSet
   · have h' : ks.Nodup ∧ ∀ k ∈ ks, k ∉ s.idSet ∧ k ∉ ([] : List Nat) := ⟨h.1, fun k hk => ⟨h.2 k hk, by simp⟩⟩
